@@ -101,8 +101,11 @@ theorem applyCmd_keysOK {c : Config} {s : NodeState} {now : Nat} {e : Entry} {s'
     simp only [applyCmd] at h
     split at h
     · cases h
-    · simp only [Option.some.injEq, Prod.mk.injEq] at h
-      obtain ⟨rfl, _, _⟩ := h; exact hk
+    · split at h
+      · simp only [Option.some.injEq, Prod.mk.injEq] at h
+        obtain ⟨rfl, _, _⟩ := h; exact hk
+      · simp only [Option.some.injEq, Prod.mk.injEq] at h
+        obtain ⟨rfl, _, _⟩ := h; exact hk
   | membership a n =>
     simp only [applyCmd, Option.some.injEq, Prod.mk.injEq] at h
     obtain ⟨rfl, _, _⟩ := h
